@@ -36,6 +36,9 @@ PROFILE = ["release"]   # quick: release build; thorough: debug build (collects 
 # wire encoding (see IterLang.p_prog)
 
 
+OKINDS = ["deck", "bag", "vbag", "chained"]
+
+
 def Z(z):
     return z + 1000
 
@@ -111,6 +114,8 @@ def w_iexp(e):
         return [7, e[1]]
     if k == "slot":
         return [8, e[1]]
+    if k == "obj":
+        return [11, e[1]]
     if k == "map":
         return [9] + w_fn(e[1]) + w_iexp(e[2])
     if k == "filter":
@@ -155,11 +160,17 @@ def w_stmt(s):
         return [12] + w_iexp(s[1])
     if k == "reduce":
         return [13, 0 if s[1] == "sum" else 1] + w_value(s[2]) + w_iexp(s[3])
+    if k == "obj":
+        return [14, s[1], OKINDS.index(s[2])] + w_vlist(s[3]) + [Z(s[4])]
     raise ValueError(s)
 
 
-def w_prog(fun, loc, body):
-    return " ".join(str(x) for x in [int(fun), int(loc), len(body)] + [t for s in body for t in w_stmt(s)])
+def w_prog(fun, loc, direct, body):
+    return " ".join(str(x) for x in [int(fun), int(loc), int(direct), len(body)] + [t for s in body for t in w_stmt(s)])
+
+
+def wire_of(p):
+    return w_prog(p["fun"], p["loc"], p.get("dir", False), p["body"])
 
 
 # ------------------------------------------------------------------------------------------
@@ -218,6 +229,8 @@ def base_len(e, vecs):
         return 99
     if k == "wvar":
         return vecs.get(e[1], 0)
+    if k == "obj":
+        return vecs.get(("obj", e[1]), 0)
     return 2  # slot: whatever it was bound to
 
 
@@ -236,6 +249,8 @@ def facts(body):
     for s in walk(body):
         if s[0] == "setvec":
             vecs[s[1]] = max(vecs.get(s[1], 0), len(s[2]))
+        if s[0] == "obj":
+            vecs[("obj", s[1])] = max(vecs.get(("obj", s[1]), 0), len(s[3]))
     es = list(iexps(body))
     return {
         "chain": max([chain_depth(e) for e in es] or [0]),
@@ -368,6 +383,8 @@ def g_iter(rng, env, small=False):
         return g_chain(rng, e, depth=rng.choice([0, 0, 1, 2]))
     if r < 0.27 and env.get("wvars"):
         return g_chain(rng, ("wvar", rng.choice(env["wvars"])), depth=rng.choice([0, 0, 0, 1, 2]))
+    if env.get("objs") and r < 0.62:
+        return g_chain(rng, ("obj", rng.choice(env["objs"])), depth=rng.choice([0, 0, 1, 1, 2, 3]))
     if env.get("same") and r < 0.45:
         return env["same"]
     return g_chain(rng, g_source(rng, size=rng.choice([0, 1, 2, 3]) if small else None))
@@ -389,10 +406,14 @@ def g_for(rng, d, depth_left, env):
 
 
 def g_program(rng):
-    env = {"slots": [], "wvars": []}
+    env = {"slots": [], "wvars": [], "objs": []}
     body = []
     for _ in range(rng.choice([1, 1, 2, 3])):
         r = rng.random()
+        if rng.random() < 0.3:
+            n = rng.randint(0, 2)
+            body.append(g_obj(rng, n))
+            env["objs"] = sorted(set(env["objs"] + [n]))
         if r < 0.25:
             n = rng.randint(0, 2)
             body.append(("let", n, g_chain(rng, g_source(rng))))
@@ -414,6 +435,57 @@ def g_program(rng):
             body.append(("collect", ("wvar", rng.choice(env["wvars"]))))
     fun = has(body, "return") or rng.random() < 0.5
     return {"fun": fun, "loc": rng.random() < 0.3, "body": body, "stream": "random"}
+
+
+def g_obj(rng, n, kind=None, size=None):
+    """obN = a user-defined iterable whose iter() is not the identity"""
+    kind = kind or rng.choice(OKINDS)
+    size = rng.choice([0, 1, 3, 4, 5]) if size is None else size
+    return ("obj", n, kind, g_values(rng, size, "num" if kind == "chained" or rng.random() < 0.7 else "str"), rng.choice([1, 10, -2]))
+
+
+# every way core.yl lets a program consume an iterable E (the methods of class Iter + the for statement + chains)
+def consumers(rng):
+    f, f2, p, p2 = g_fn(rng), g_fn(rng), g_pr(rng), g_pr(rng)
+    return {
+        "for": lambda E: [("for", E, [("pvar", 0)])],
+        "for_break": lambda E: [("for", E, [("pvar", 0), ("if", 0, 2, [("break",)])])],
+        "iter": lambda E: [("let", 0, E), ("next", 0), ("for", ("slot", 0), [("pvar", 0)]), ("next", 0)],
+        "map": lambda E: [("collect", ("map", f, E))],
+        "filter": lambda E: [("collect", ("filter", p, E))],
+        "collect": lambda E: [("collect", E)],
+        "reduce": lambda E: [("reduce", rng.choice(["sum", "count"]), 0, E)],
+        "filter.map": lambda E: [("collect", ("map", f, ("filter", p, E)))],
+        "map.filter": lambda E: [("collect", ("filter", p, ("map", f, E)))],
+        "filter.filter": lambda E: [("for", ("filter", p2, ("filter", p, E)), [("pvar", 0)])],
+        "map.map": lambda E: [("reduce", "sum", 0, ("map", f2, ("map", f, E)))],
+        "filter.map.filter": lambda E: [("for", ("filter", p2, ("map", f, ("filter", p, E))), [("pvar", 0), ("if", 0, 2, [("break",)])])],
+        "nested": lambda E: [("for", E, [("pvar", 0), ("for", ("filter", p, E), [("pvar", 1)])])],
+    }
+
+
+CONSUMER_OF_FN = {"iter": ["iter", "for", "for_break", "nested"], "map": ["map", "filter.map", "map.filter", "map.map", "filter.map.filter"],
+                  "filter": ["filter", "filter.map", "map.filter", "filter.filter", "filter.map.filter", "nested"],
+                  "collect": ["collect", "map", "filter", "filter.map", "map.filter"], "reduce": ["reduce", "map.map"]}
+
+
+def object_programs(rng, quick):
+    """user iterables with a non-identity iter() x every consumer, then a SECOND consumer on the same object
+    (the first one has exhausted / moved its cursor), rendered with and without the explicit .iter()"""
+    progs = []
+    for kind in OKINDS:
+        for size in ([4, 0] if quick else [4, 0, 1, 6]):
+            names = list(consumers(rng).keys())
+            for c1 in names:
+                seconds = rng.sample(names, 2 if quick and size else (1 if quick else 5))
+                for c2 in seconds:
+                    cs = consumers(rng)
+                    E = ("obj", 0)
+                    body = [g_obj(rng, 0, kind, size)] + cs[c1](E) + cs[c2](E) + [("collect", E)]
+                    for direct in ([rng.random() < 0.7] if quick else [True, False]):
+                        progs.append({"fun": rng.random() < 0.5, "loc": rng.random() < 0.3, "dir": direct, "body": body,
+                                      "stream": "objects", "consumers": (kind, c1, c2)})
+    return progs
 
 
 def kinds_sizes(rng):
@@ -511,7 +583,7 @@ def directed(rng, quick):
             progs.append({"fun": True, "loc": True, "body": body, "stream": "locals"})
             if ctl != "return":
                 progs.append({"fun": False, "loc": True, "body": body, "stream": "locals"})
-    return progs
+    return progs + object_programs(rng, quick)
 
 
 # ------------------------------------------------------------------------------------------
@@ -548,13 +620,13 @@ def unlines(field):
 
 def evaluate(ctx, progs, tag):
     """model + spec + rendered text from Coq, then the implementation"""
-    terms = ['run_case "%s"%%string' % w_prog(p["fun"], p["loc"], p["body"]) for p in progs]
+    terms = ['run_case "%s"%%string' % wire_of(p) for p in progs]
     pre = yvlib.coq_eval(["YV:IterLang"], ["prelude"], tag="C18pre", preamble="Open Scope string_scope.\n")[0]
     vals = yvlib.coq_eval(["YV:IterLang"], terms, shard_size=max(20, min(120, len(terms) // yvlib.NPROC + 1)), tag="C18" + tag, preamble="Open Scope string_scope.\n")
     for p, v in zip(progs, vals):
         if v is None:
             p["bad"] = True
-            ctx.corr_broken.append("model evaluation failed (coq_eval) for " + w_prog(p["fun"], p["loc"], p["body"])[:200])
+            ctx.corr_broken.append("model evaluation failed (coq_eval) for " + wire_of(p)[:200])
             continue
         src, mech, spec, early = v.split("|")
         p["src"] = pre + yvlib.unhx(src).decode("utf-8")
@@ -585,7 +657,7 @@ def known_class_of(p):
 
 def judge(ctx, p, stats):
     """the two comparisons for one program"""
-    wire = w_prog(p["fun"], p["loc"], p["body"])
+    wire = wire_of(p)
     if "!FUEL" in p["mech"]:
         stats["model_fuel"] += 1
         return
@@ -640,12 +712,45 @@ def reference_compare(ctx, progs):
             st["disagrees_with_impl_M_S"] += 1
             if st["disagrees_with_impl_M_S"] <= 3:
                 ctx.notes.append("reference interpreter (SpecRun) prints %s where impl = M = S print %s: %s" % (
-                    ref[:12], p["impl"][:12], w_prog(p["fun"], p["loc"], p["body"])[:200]))
+                    ref[:12], p["impl"][:12], wire_of(p)[:200]))
             if p["spec"] == ["SKIP"]:
                 ctx.violation("printed sequence differs from the reference interpreter (SpecRun) on a program the "
                               "list-level Spec leaves open", input=p["src"], expected=ref, actual=p["impl"],
-                              wire=w_prog(p["fun"], p["loc"], p["body"]), stream=p["stream"])
+                              wire=wire_of(p), stream=p["stream"])
     return st
+
+
+def check_consumer_table(ctx, progs):
+    """the methods of class Iter as the translator found them in the CURRENT core.yl (gen/manifest.json) against the
+    consumers the generators exercise on objects whose iter() is not the identity"""
+    import json
+    try:
+        with open(os.path.join(yvlib.COQ, "gen", "manifest.json")) as fh:
+            tbl = json.load(fh).get("c18_iter_fns", {})
+    except Exception:
+        tbl = {}
+    fns = tbl.get("Iter", [])
+    if not fns:
+        ctx.broken.append("translator: class Iter of core.yl not found (gen/manifest.json c18_iter_fns)")
+        return
+    used = {}
+    for p in progs:
+        if p.get("consumers"):
+            for c in p["consumers"][1:]:
+                used[c] = used.get(c, 0) + 1
+    cover = {}
+    for f in fns:
+        names = CONSUMER_OF_FN.get(f["name"])
+        if names is None:
+            ctx.broken.append("core.yl: method Iter.%s is not covered by the C18 generators (add it to IterLang and CONSUMER_OF_FN)" % f["name"])
+            continue
+        cover[f["name"]] = sum(used.get(n, 0) for n in names)
+        if cover[f["name"]] == 0:
+            ctx.broken.append("no generated program consumes a user iterable through Iter.%s" % f["name"])
+        if f["how"] not in ("self", "iter", "for"):
+            ctx.notes.append("core.yl: Iter.%s does not obtain its iterator through iter() (how=%s): the side condition "
+                             "C18_side_consumers_call_iter is expected to fail" % (f["name"], f["how"]))
+    ctx.cov["iter_methods"] = {f["name"]: {"how": f["how"], "programs_on_user_iterables": cover.get(f["name"], 0)} for f in fns}
 
 
 def nontrivial(p):
@@ -685,7 +790,7 @@ def shrink(ctx, p):
         for b in shrink_body(cur["body"]):
             if not b or (has(b, "return") and not cur["fun"]):
                 continue
-            cands.append({"fun": cur["fun"], "loc": cur["loc"], "body": b, "stream": cur["stream"]})
+            cands.append({"fun": cur["fun"], "loc": cur["loc"], "dir": cur.get("dir", False), "body": b, "stream": cur["stream"]})
             if len(cands) >= min(8, budget):
                 break
         if not cands:
@@ -728,7 +833,9 @@ def run(ctx):
         return
     progs = directed(rng, quick) + [g_program(rng) for _ in range(350 if quick else 4000)]
     for p in progs:
+        p.setdefault("dir", rng.random() < 0.5)
         p["facts"] = facts(p["body"])
+    check_consumer_table(ctx, progs)
     done = evaluate(ctx, progs, "main")
     for p in done:
         judge(ctx, p, stats)
@@ -740,7 +847,7 @@ def run(ctx):
         if p0 is not None and p0["spec"] != ["SKIP"] and p0["impl"] != p0["spec"]:
             small = shrink(ctx, p0)
             v.update({"input": small["src"], "expected": small["spec"], "actual": small["impl"],
-                      "wire": w_prog(small["fun"], small["loc"], small["body"])})
+                      "wire": wire_of(small)})
     known = [v for v in ctx.violations if v.get("known_class")]
     firsts = {}
     for v in known:
@@ -748,7 +855,7 @@ def run(ctx):
     ctx.violations[:] = fresh[:5] + list(firsts.values())
     ctx.corr_broken[:] = ctx.corr_broken[:5]
     ctx.broken[:] = ctx.broken[:5]
-    nt = {w_prog(p["fun"], p["loc"], p["body"]) for p in done if nontrivial(p)}
+    nt = {wire_of(p) for p in done if nontrivial(p)}
     streams = {}
     kinds = {}
     for p in done:
@@ -785,7 +892,7 @@ def run(ctx):
         "spec_compared": stats["spec_checked"], "spec_undetermined": stats["spec_skip"],
         "reference_interpreter": refstats,
         "input_distribution": dist,
-        "samples": [sample["src"][sample["src"].index("var c0"):][:1500], w_prog(sample["fun"], sample["loc"], sample["body"])],
+        "samples": [sample["src"][sample["src"].index("var c0"):][:1500], wire_of(sample)],
     })
 
 
